@@ -1004,3 +1004,59 @@ def query7(ctx) -> List[Ob]:
     else:
         out.append(bad("QUERY-7", im.qualname, key, ctx.where(im), why))
     return out
+
+
+# ------------------------------------------------------------------ QUERY-8
+
+
+@rule("QUERY-8", 2, "branch discovery looks at every item of the region view: the only thing that decides whether an item starts a branch is the number of its (visible) successors and the dominance test")
+def query8(ctx) -> List[Ob]:
+    out: List[Ob] = []
+    fn = _fn(ctx, "_iter_branch_regions")
+    where = ctx.where(fn)
+    lps = [lp for lp in _loops(fn.node) if "concealed_region_view" in A.unparse(lp.iter) or ".graph" in A.unparse(lp.iter)]
+    key = "every item with several successors is a candidate"
+    if not lps:
+        out.append(unresolved("QUERY-8", fn.qualname, key, where, "loop over the region view not found"))
+        return out
+    lp = lps[0]
+    names = [x.id for x in ast.walk(lp.target) if isinstance(x, ast.Name)]
+    node_v = names[-1] if names else "?"
+    ys = [y for y in A.walk_no_nested(lp) if isinstance(y, (ast.Yield, ast.YieldFrom))] or [c for c in A.walk_no_nested(lp) if isinstance(c, ast.Call) and isinstance(c.func, ast.Attribute) and c.func.attr == "append"]
+    if not ys:
+        out.append(unresolved("QUERY-8", fn.qualname, key, where, "no yield / append of a (begin, end) pair found"))
+        return out
+    from .ctrl import _guard_conditions
+
+    conds = [(t, pol) for t, pol in _guard_conditions(lp, ys[0])]
+    arity = [(t, pol) for t, pol in conds if "jump_targets" in t and "len(" in t]
+    extra = []
+    for t, pol in conds:
+        if (t, pol) in arity:
+            continue
+        # dominance tests mention the dominator tables (parameters), not the class / kind / name of the item
+        try:
+            e = ast.parse(t, mode="eval").body
+        except SyntaxError:
+            e = None
+        about_item = e is not None and any((isinstance(x, ast.Call) and isinstance(x.func, ast.Name) and x.func.id in ("isinstance", "type", "issubclass")) or (isinstance(x, ast.Attribute) and isinstance(x.value, ast.Name) and x.value.id == node_v and x.attr not in ("jump_targets", "_jump_targets")) for x in ast.walk(e))
+        if about_item:
+            extra.append(("" if pol else "not ") + t)
+    raw = [t for t, _p in arity if "._jump_targets" in t]
+    if not arity:
+        out.append(bad("QUERY-8", fn.qualname, key, ctx.where(fn, lp), "a branch begin is not recognised by its number of successors"))
+    elif raw:
+        out.append(bad("QUERY-8", fn.qualname, key, ctx.where(fn, lp), f"the raw successor tuple is counted ({raw[0][:40]}): a latch with one exit and its declared back edge is taken for a branch"))
+    elif extra:
+        out.append(bad("QUERY-8", fn.qualname, key, ctx.where(fn, lp), f"items are also filtered by '{extra[0][:60]}': an item of that kind with several successors (a loop region that is left towards two blocks) never becomes the head of a branch and keeps its successors unstructured"))
+    else:
+        out.append(ok("QUERY-8", fn.qualname, key, ctx.where(fn, lp), f"candidate iff {arity[0][0]}; then the dominance test"))
+    # the pair is (begin, its immediate post-dominator) with begin the immediate dominator of that
+    key = "end = immediate post-dominator of begin, and begin = immediate dominator of end"
+    ps = [p.arg for p in fn.params]
+    txt = " ".join(t for t, _ in conds)
+    if len(ps) >= 3 and ps[1] in txt and ps[2] in txt:
+        out.append(ok("QUERY-8", fn.qualname, key, ctx.where(fn, lp), txt[:80]))
+    else:
+        out.append(bad("QUERY-8", fn.qualname, key, ctx.where(fn, lp), "the candidate is not checked against both dominator tables"))
+    return out
